@@ -317,6 +317,48 @@ func runC11(c *Ctx) {
 		c.Floor("R5.ownreply", nConn, 1, "reads of the upstream connection field")
 	}
 
+	// ... and a frame handed to an operation is memory of its own: what an operation keeps in the shared tables (a
+	// certificate parsed from the request) must not alias a buffer that the connection's loop overwrites with the next
+	// request outside the server's mutex
+	for _, pkg := range []string{shimPkg, yubiPkg} {
+		rd, _ := framingBodies(w, pkg)
+		if rd == nil {
+			c.Unresolved("R5.ownreply", "framed read of "+pkg)
+			continue
+		}
+		c.Saw(rd)
+		nRet, fresh := 0, true
+		why := ""
+		for _, r := range w.MayBeNilReturns(rd) {
+			if rd.Recover != nil && r.Block() == rd.Recover {
+				continue
+			}
+			nRet++
+			for _, lf := range w.Leaves(r.Results[0], r) {
+				v := throughCell(strip(lf.Val))
+				for hop := 0; hop < 3; hop++ {
+					if sl, ok := v.(*ssa.Slice); ok {
+						v = throughCell(strip(sl.X))
+						continue
+					}
+					break
+				}
+				switch x := v.(type) {
+				case *ssa.MakeSlice:
+				case *ssa.Call:
+					// io.ReadAll and the like hand out a buffer of their own
+					if callee := x.Call.StaticCallee(); callee == nil || w.InRepo(callee) {
+						fresh, why = false, w.Short(lf.Val)
+					}
+				case *ssa.Const:
+				default:
+					fresh, why = false, w.Short(lf.Val)
+				}
+			}
+		}
+		c.Check(fresh && nRet > 0, "R5.ownreply", shortFn(rd)+"|every frame is a buffer of its own", w.FnPos(rd), "the frame returned is allocated by the read", "the framed read can hand out memory it did not allocate ("+why+"): a value kept from one request is overwritten by the next one outside the mutex")
+	}
+
 	// R4: yubiagent client
 	yp := w.Pkg("agent/yubiagent")
 	if yp == nil {
